@@ -633,6 +633,59 @@ def geometry(e) -> dict:
     return g
 
 
+def _points_of(e, seen=None) -> List[Any]:
+    """all Point objects (not axis vectors) reachable through .parts, each once"""
+    from classy_blocks.construct.array import Array
+    from classy_blocks.construct.point import Point, Vector
+
+    seen = {} if seen is None else seen
+
+    def rec(x):
+        if isinstance(x, Vector) or isinstance(x, Array):
+            return
+        if isinstance(x, Point):
+            seen.setdefault(id(x), x)
+            return
+        k = kind_of(x)
+        valid = getattr(getattr(x, "function", None), "_valid", None) if k == "icurve" else None
+        parts = list(x.parts)
+        if valid is not None:
+            x.function._valid = valid
+        for p in parts:
+            rec(p)
+
+    rec(e)
+    return list(seen.values())
+
+
+def projection_probe(target, other) -> List[dict]:
+    """Independence of the projections: projecting ONE point (of the entity, of its copy) to a probe label must put
+    that label on this point only — not on another point of the entity (Extrude's top face is a copy of its base),
+    not on a point of the copy / the original.  Run last: it changes projected_to."""
+    pts = _points_of(target)
+    n_target = len(pts)
+    if other is not None:
+        pts = pts + [p for p in _points_of(other) if id(p) not in {id(q) for q in pts}]
+    leaks = []
+    stride = max(1, len(pts) // 24)
+    for i in range(0, len(pts), stride):
+        label = f"c09probe{i}"
+        pts[i].project(label)
+        for j, q in enumerate(pts):
+            if j != i and label in q.projected_to:
+                leaks.append(
+                    {
+                        "projected": ("entity" if i < n_target else "other") + f" point {i}",
+                        "also_on": ("entity" if j < n_target else "other") + f" point {j}",
+                        "across_copy": (i < n_target) != (j < n_target),
+                    }
+                )
+                break
+        if len(leaks) >= 3:
+            break
+    return leaks
+
+
 # =========================================================================== applying the steps to a real object
 def apply_steps(e, steps: List[dict], mode: str) -> Tuple[List[Optional[List[float]]], List[str]]:
     """Applies the steps; returns the centre observed before each step (method mode) and the names of the
@@ -1285,6 +1338,27 @@ class C09(core.Check):
                 elif fam == "face":
                     spec = gen_face(rng, Frame(rng), 0, 0.3, ["spline", "polyline", "curve-discrete"])
                 cases.append({"kind": "ent", "ent": spec, "steps": [{"k": "T", "d": S(rvec(rng))}], "mode": rng.choice(["method", "list"]), "copy": rng.random() < 0.3})
+        # Round 3: copy, then transform the ORIGINAL (translations work in place): the untouched copy must keep its
+        # geometry — interpolated curves (cached function, valid at copy time) bare, under an OnCurve edge, on faces
+        # and lofts, and a sample of every other family
+        for i in range(10 * mult):
+            fr = Frame(rng)
+            which = i % 5
+            if which == 0:
+                e = gen_edge(rng, fr.P(0, 0, 0), fr.P(2, Fr(1, 2), 0), rng.choice(["curve-linear", "curve-spline"]))
+                spec = {"t": "curve", **e["c"]}
+            elif which == 1:
+                p1, p2 = fr.P(0, 0, 0), fr.P(2, Fr(1, 2), 0)
+                spec = {"t": "edge", "e": gen_edge(rng, p1, p2, rng.choice(["curve-linear", "curve-spline", "curve-discrete", "spline"])), "ends": [S(p1), S(p2)]}
+            elif which == 2:
+                spec = gen_face(rng, fr, 0, 0.4, ["curve-linear", "curve-spline", "curve-circle", "spline"])
+            elif which == 3:
+                spec = gen_loft(rng, fr, 0.6, ["curve-linear", "curve-line", "polyline", "arc"])
+            else:
+                spec = gen_entity(rng, rng.choice(["face", "loft", "extrude", "sketch", "shape", "curve"]))
+            steps = gen_steps(rng, rng.choice([1, 2]))
+            steps.insert(rng.randrange(len(steps) + 1), {"k": "T", "d": S(rvec(rng))})
+            cases.append({"kind": "ent", "ent": spec, "steps": steps, "mode": rng.choice(["method", "list"]), "copy": True, "move": "original"})
         # copies without any transformation
         for fam in ("face", "loft", "shape", "sketch", "curve", "edge"):
             for _ in range(2 * mult):
@@ -1337,9 +1411,14 @@ class C09(core.Check):
             except Exception:
                 out["center0"] = None
             target = ent
+            rev = bool(case["copy"]) and case.get("move") == "original"
+            dup = None
             if case["copy"]:
-                target = ent.copy()
-                walk.tokens(target, False)  # cells of the copy, in first-visit order at copy time
+                dup = ent.copy()
+                walk.tokens(dup, False)  # cells of the copy, in first-visit order at copy time
+                # either the copy is transformed and the original must stay, or the other way round
+                target = ent if rev else dup
+            other = None if dup is None else (dup if rev else ent)
             out["n_cells"] = walk.n_cells
             try:
                 centers, mutated = apply_steps(target, steps, case["mode"])
@@ -1359,13 +1438,14 @@ class C09(core.Check):
             unknown_before = len(walk.cell_of)
             after = walk.tokens(ent, True)
             if case["copy"]:
-                after = after + [("|",)] + walk.tokens(target, True)
+                after = after + [("|",)] + walk.tokens(dup, True)
             out["new_objects"] = len(walk.cell_of) - unknown_before
             out["tree1"] = after
             out["geom0"] = geometry(twin)
             out["geom1"] = geometry(target)
             if case["copy"]:
-                out["geomE"] = geometry(ent)
+                out["geomE"] = geometry(other)
+            out["projection_leaks"] = projection_probe(target, other)
             return out
 
     def _run_prim(self, case: dict) -> Any:
@@ -1420,7 +1500,7 @@ class C09(core.Check):
         steps = case["steps"]
         # oracle centre for kinds without a modelled rule: observed (method mode) or predicted from the first one
         ocs = self._centres_for_model(case, impl)
-        mode = ("m" if case["mode"] == "method" else "l") + ("c" if case["copy"] else "")
+        mode = ("m" if case["mode"] == "method" else "l") + (("o" if case.get("move") == "original" else "c") if case["copy"] else "")
         cells = " ".join(enc_v(c) for c in impl["cells0"])
         req = f"c09.run {mode} {len(impl['cells0'])} {cells} {len(impl['tree0'])} " + " ".join(impl["tree0"])
         if steps:
@@ -1513,7 +1593,8 @@ class C09(core.Check):
             return out
         cls = _top_class(case["ent"])
         kinds = "+".join(sorted({s["k"] for s in case["steps"]})) or "none"
-        via = ("transform" if case["mode"] == "list" else "method") + (":copy" if case["copy"] else "")
+        rev_copy = bool(case["copy"]) and case.get("move") == "original"
+        via = ("transform" if case["mode"] == "list" else "method") + ((":original-of-a-copy" if rev_copy else ":copy") if case["copy"] else "")
         where = f"{cls}:{kinds}:{via}"
         if "raised" in impl:
             return [{"site": f"{where}:raised", "what": impl["raised"]}]
@@ -1540,7 +1621,10 @@ class C09(core.Check):
         if not impl["aliased"]:
             cells0 = impl["cells0"]
             toks = impl["tree1"]
-            if case["copy"]:
+            if rev_copy:
+                toks = toks[: toks.index(("|",))]
+                shift = 0
+            elif case["copy"]:
                 toks = toks[toks.index(("|",)) + 1 :]
                 first = min((t[1] for t in toks if t[0] in ("P", "D", "A")), default=0)
                 base = min((t[1] for t in impl["tree1"] if t[0] in ("P", "D", "A")), default=0)
@@ -1579,10 +1663,14 @@ class C09(core.Check):
                 break
         if case["copy"]:
             for i, (u0, u1) in enumerate(zip(g0["units"], impl["geomE"]["units"])):
-                v = compare_units(u0, u1, Aff(), f"{cls}:copy:original-changed", labels="geometry_keys" not in g1)
+                site = f"{cls}:{kinds}:copy-changed-with-original" if rev_copy else f"{cls}:copy:original-changed"
+                v = compare_units(u0, u1, Aff(), site, labels="geometry_keys" not in g1)
                 out.extend(v[:1])
                 if v:
                     break
+        for leak in impl.get("projection_leaks", [])[:1]:
+            site = f"{cls}:copy:projection-shared-with-copy" if leak["across_copy"] else f"{cls}:projection-shared-between-points"
+            out.append({"site": site, "what": f"projecting {leak['projected']} to a surface also projected {leak['also_on']} (projected_to is shared)"})
         m0, m1 = g0.get("mesh"), g1.get("mesh")
         if m0 and m1:
             if ("error" in m0) != ("error" in m1) or (("error" not in m0) and (m0["vertices"], m0["edges"]) != (m1["vertices"], m1["edges"])):
@@ -1611,7 +1699,7 @@ class C09(core.Check):
         if case.get("degenerate"):
             return "degenerate:" + case["steps"][0]["k"]
         kinds = "+".join(sorted({s["k"] for s in case["steps"]})) or "none"
-        return f"{_top_class(case['ent'])}:{kinds}:{case['mode']}" + (":copy" if case["copy"] else "")
+        return f"{_top_class(case['ent'])}:{kinds}:{case['mode']}" + ((":copy-then-original" if case.get("move") == "original" else ":copy") if case["copy"] else "")
 
     def nontrivial_key(self, case, impl):
         if case["kind"] == "ent" and not case["steps"] and not case["copy"]:
